@@ -3,6 +3,7 @@ import Orx.IW.Outs
 import Orx.GenThms.Slice
 import Orx.GenThms.Vec
 import Orx.GenThms.Arr
+import Orx.IW.FullLedgerRun
 /-! # C03 Chunk contract: non-empty, bounded, consecutive, exact length -/
 namespace Orx.Props.C03
 open Orx Orx.KS
@@ -87,5 +88,17 @@ theorem source_chunks_are_the_models (len n c : Nat) (evs dr) (hl : len < W) :
 open Orx.GenThms Orx.KS in
 theorem source_buffered_chunk_nonempty (len c n : Nat) (h : c < len) (hn : 0 < n) (hl : len < W) :
     c < (pullRange len c n).2 := buffered_chunk_nonempty len c n h hn hl
+
+
+/-- **A buffered chunk over a reused buffer is exactly what the pull wrote** (every schedule, stale slots included): when a
+thread is about to publish a buffered pull with accumulator `acc`, the first `acc.length` slots of the buffer it filled
+hold exactly `acc`; the chunk iterator reads these slots, so the announced length `acc.length` is the number of elements
+it yields, and they are `acc`. -/
+theorem buffered_chunk_over_reused_buffer (s : IWF.ISrc) (hown : s.owning = true) (n : Nat) (progs : Nat → List SOp)
+    (σ : List Nat) (hσ : ∀ t ∈ σ, t < n) (hb : IWF.Below s σ (IWF.init progs)) (t m b : Nat) (lp : Bool) (acc : List Nat)
+    (hd : ((IWF.run s σ (IWF.init progs)).d t).dead = false)
+    (hpc : ((IWF.run s σ (IWF.init progs)).core.th t).pc = .pub (.buffered m lp) b acc) :
+    ∃ l, IWF.actBuf ((IWF.run s σ (IWF.init progs)).d t) lp = some l ∧ l.length = m ∧ l.take acc.length = acc.map some :=
+  IWF.buffered_chunk_is_what_was_pulled s hown n progs σ hσ hb t m b lp acc hd hpc
 
 end Orx.Props.C03
